@@ -439,6 +439,104 @@ def run(root):
             "open Matreex\nnamespace Matreex.Gen\n\n" + "\n".join(out) + "\nend Matreex.Gen\n")
     return text, done, failed
 
+# ------------------------------------------------------------------ simple forms (constructors, conversions,
+# field getters, in-place swaps): translated by template, emitted as pure functions into Gen/Simple.lean
+# (file, impl hint, rust fn, Lean type, lean name, kind)
+SIMPLE_JOBS = [
+    ("shape.rs", r"impl Shape\s*\{", "new", "Shape", "Shape.new", "ctor"),
+    ("shape.rs", r"impl Shape\s*\{", "nrows", "Shape", "Shape.nrows", "getter"),
+    ("shape.rs", r"impl Shape\s*\{", "ncols", "Shape", "Shape.ncols", "getter"),
+    ("shape.rs", r"impl Shape\s*\{", "transpose", "Shape", "Shape.transpose", "mutator"),
+    ("shape.rs", r"impl From<\(usize, usize\)> for Shape\s*\{", "from", "Shape", "Shape.from_tuple", "from"),
+    ("shape.rs", r"impl From<\[usize; 2\]> for Shape\s*\{", "from", "Shape", "Shape.from_array", "from"),
+    ("shape.rs", r"impl AxisShape\s*\{", "major", "AxisShape", "AxisShape.major_get", "getter"),
+    ("shape.rs", r"impl AxisShape\s*\{", "minor", "AxisShape", "AxisShape.minor_get", "getter"),
+    ("shape.rs", r"impl AxisShape\s*\{", "transpose", "AxisShape", "AxisShape.transpose", "mutator"),
+    ("order.rs", r"impl Order\s*\{", "switch", "Order", "Order.switch", "enum-mutator"),
+    ("index.rs", r"impl Index\s*\{", "new", "Index", "Index.new", "ctor"),
+    ("index.rs", r"impl Index\s*\{", "swap", "Index", "Index.swap", "mutator"),
+    ("index.rs", r"impl From<\(usize, usize\)> for Index\s*\{", "from", "Index", "Index.from_tuple", "from"),
+    ("index.rs", r"impl From<\[usize; 2\]> for Index\s*\{", "from", "Index", "Index.from_array", "from"),
+    ("index.rs", r"impl WrappingIndex\s*\{", "new", "WrappingIndex", "WrappingIndex.new", "ctor"),
+    ("index.rs", r"impl WrappingIndex\s*\{", "swap", "WrappingIndex", "WrappingIndex.swap", "mutator"),
+    ("index.rs", r"impl AxisIndex\s*\{", "swap", "AxisIndex", "AxisIndex.swap", "mutator"),
+]
+ENUM_CTORS = {"RowMajor": ".rowMajor", "ColMajor": ".colMajor"}
+SCALAR_TY = {"Shape": "Nat", "AxisShape": "Nat", "Index": "Nat", "AxisIndex": "Nat", "WrappingIndex": "Int"}
+
+def strip_rust_comments(src):
+    src = re.sub(r"/\*.*?\*/", "", src, flags=re.S)
+    return re.sub(r"//[^\n]*", "", src)
+
+def struct_lit(text):
+    """`Self { a, b: c }` -> [(field, expr-ident)]"""
+    m = re.fullmatch(r"Self \{ (.*?) \}", text)
+    if not m:
+        raise Untranslatable(f"not a struct literal: {text!r}")
+    fields = []
+    for part in [x.strip() for x in m.group(1).split(",") if x.strip()]:
+        mm = re.fullmatch(r"(\w+)(?: ?: ?(\w+))?", part)
+        if not mm:
+            raise Untranslatable(f"field initialiser {part!r}")
+        fields.append((mm.group(1), mm.group(2) or mm.group(1)))
+    return fields
+
+def translate_simple(src, hint, name, ty, lean_name, kind):
+    text = strip_rust_comments(find_fn(src, hint, name))
+    sig, body = text[:text.index("{")], text[text.index("{"):]
+    body = re.sub(r"\s+", " ", body).strip()
+    body = re.sub(r"^\{ ?| ?\}$", "", body).strip()
+    sig = re.sub(r"\s+", " ", sig)
+    scalar = SCALAR_TY.get(ty, "Nat")
+    if kind == "getter":
+        m = re.fullmatch(r"self\.(\w+)", body)
+        if not m: raise Untranslatable(f"getter body {body!r}")
+        return f"def {lean_name} (self_ : {ty}) : {scalar} := self_.{m.group(1)}\n"
+    if kind == "ctor":
+        params = re.findall(r"(\w+) ?: ?[iu]size", sig)
+        fields = struct_lit(body)
+        for _, e in fields:
+            if e not in params: raise Untranslatable(f"ctor uses {e!r}")
+        return (f"def {lean_name} " + " ".join(f"({p} : {scalar})" for p in params) + f" : {ty} :=\n  {{ "
+                + ", ".join(f"{f} := {e}" for f, e in fields) + " }\n")
+    if kind == "mutator":
+        m = re.fullmatch(r"\(self\.(\w+), self\.(\w+)\) = \(self\.(\w+), self\.(\w+)\); self", body)
+        if not m: raise Untranslatable(f"mutator body {body!r}")
+        a, b, c, d = m.groups()
+        return f"def {lean_name} (self_ : {ty}) : {ty} := {{ self_ with {a} := self_.{c}, {b} := self_.{d} }}\n"
+    if kind == "enum-mutator":
+        m = re.fullmatch(r"\*self = match self \{ (.*?),? \}; self", body)
+        if not m: raise Untranslatable(f"enum mutator body {body!r}")
+        arms = []
+        for arm in [x.strip() for x in m.group(1).split(",") if x.strip()]:
+            mm = re.fullmatch(r"Self::(\w+) => Self::(\w+)", arm)
+            if not mm or mm.group(1) not in ENUM_CTORS or mm.group(2) not in ENUM_CTORS:
+                raise Untranslatable(f"match arm {arm!r}")
+            arms.append(f"  | {ENUM_CTORS[mm.group(1)]} => {ENUM_CTORS[mm.group(2)]}")
+        return f"def {lean_name} (self_ : {ty}) : {ty} :=\n  match self_ with\n" + "\n".join(arms) + "\n"
+    if kind == "from":
+        m = re.fullmatch(r"let [\(\[](\w+), (\w+)[\)\]] = value; (Self \{ .*? \})", body)
+        if not m: raise Untranslatable(f"conversion body {body!r}")
+        x, y, lit = m.groups()
+        fields = struct_lit(lit)
+        for _, e in fields:
+            if e not in (x, y): raise Untranslatable(f"conversion uses {e!r}")
+        return (f"def {lean_name} (value : {scalar} × {scalar}) : {ty} :=\n  let ({x}, {y}) := value\n  {{ "
+                + ", ".join(f"{f} := {e}" for f, e in fields) + " }\n")
+    raise Untranslatable(f"unknown kind {kind}")
+
+def run_simple(root):
+    out, done, failed = [], [], []
+    for f, hint, name, ty, lean_name, kind in SIMPLE_JOBS:
+        try:
+            out.append(translate_simple(open(f"{root}/{f}").read(), hint, name, ty, lean_name, kind))
+            done.append(lean_name)
+        except (Untranslatable, OSError, ValueError) as ex:
+            failed.append((lean_name, str(ex)))
+    text = ("-- GENERATED by translate/t2.py (simple forms) from /repo/src — do not edit\nimport Matreex.Prelude\n"
+            "open Matreex\nnamespace Matreex.Gen\n\n" + "\n".join(out) + "\nend Matreex.Gen\n")
+    return text, done, failed
+
 if __name__ == "__main__":
     root = sys.argv[1] if len(sys.argv) > 1 else "/repo/src"
     dest = sys.argv[2] if len(sys.argv) > 2 else "/verif/lean/Matreex/Gen/Core.lean"
@@ -447,4 +545,8 @@ if __name__ == "__main__":
     changed = not os.path.exists(dest) or open(dest).read() != text
     if changed:
         open(dest, "w").write(text)
-    print(json.dumps({"translated": done, "untranslated": failed, "changed": changed}, indent=1))
+    stext, sdone, sfailed = run_simple(root)
+    sdest = os.path.join(os.path.dirname(dest), "Simple.lean")
+    if not os.path.exists(sdest) or open(sdest).read() != stext:
+        open(sdest, "w").write(stext); changed = True
+    print(json.dumps({"translated": done + sdone, "untranslated": failed + sfailed, "changed": changed}, indent=1))
